@@ -66,6 +66,12 @@ def check_mode(b, case, ctx, plain, mode):
     q = lambda: {'table': plain, 'mode': mode}
     if mode == 'token':
         dot = ctx.call('graphviz(token)', q, lambda: lat.graphviz(make_object_label=tok('o'), make_property_label=tok('p')))
+    elif mode == 'defaulted-parameter':
+        # ordinary callbacks with a second, defaulted parameter: the library must go on calling callback(names)
+        to, tp = tok('o'), tok('p')
+        dot = ctx.call('graphviz(defaulted parameter)', q, lambda: lat.graphviz(
+            make_object_label=lambda names, sep=', ': to(names) if sep == ', ' else 'SEP-REPLACED',
+            make_property_label=lambda names, prefix='': tp(names) if prefix == '' else 'PREFIX-REPLACED'))
     elif mode == 'falsy-callable':
         dot = ctx.call('graphviz(falsy callable)', q, lambda: lat.graphviz(make_object_label=FalsyCallable(tok('o')),
                                                                           make_property_label=FalsyCallable(tok('p'))))
@@ -110,7 +116,7 @@ def check_mode(b, case, ctx, plain, mode):
                 ctx.check(isinstance(text, dotparse.QStr) and text.startswith('<') and text.endswith('>'), 'label-literal', q,
                           lambda: f'label {text!r} on c{i} produced as nohtml("<...>") is not emitted as a quoted literal')
                 text = text[1:-1]
-            if mode in ('token', 'nohtml', 'falsy-callable'):
+            if mode in ('token', 'nohtml', 'falsy-callable', 'defaulted-parameter'):
                 if text.endswith('\\e'):
                     ctx.check(text[2:-2].isdigit() and int(text[2:-2]) % 2 == 1, 'label-backslash', q,
                               lambda: f'label {text!r} on c{i}: backslash in the callback text was altered')
@@ -125,7 +131,7 @@ def check_mode(b, case, ctx, plain, mode):
             else:
                 ctx.check(text == ' '.join(names), 'label-text', q,
                           lambda: f'label on c{i} is {text!r}, want {" ".join(names)!r}')
-    if mode in ('token', 'nohtml', 'falsy-callable'):
+    if mode in ('token', 'nohtml', 'falsy-callable', 'defaulted-parameter'):
         ctx.check(len(calls['o']) == len(objs_at) and len(calls['p']) == len(props_at), 'callback-count', q,
                   'label callbacks called a different number of times than there are labelled concepts')
     src = dot.source
@@ -145,7 +151,7 @@ def check_one(case, ctx, deep):
         k = len(b.ref.concepts)
         multi = (any(len(v) >= 2 for v in objs_at.values()) or any(len(v) >= 2 for v in props_at.values())
                  or bool(set(objs_at) & set(props_at)))
-        for mode in ('token', 'nohtml', 'falsy-callable', 'default', 'default-again'):
+        for mode in ('token', 'nohtml', 'falsy-callable', 'defaulted-parameter', 'default', 'default-again'):
             if rep == 0:
                 ctx.case({'table': plain, 'mode': mode}, k >= 3 and multi,
                          [lib.size_bucket(k), 'mode:' + mode] + (['multi-or-both-labels'] if multi else []))
